@@ -4,6 +4,14 @@ import json
 props=[json.loads(l) for l in open('properties.jsonl')]
 TRUST="Trusted base: the Go type checker/SSA builder of x/tools v0.29.0; the std functions on the allow-lists behave as documented; exported operations receive values produced by the repo's constructors."
 claimed={
+'C01':dict(technique="static analysis: finite-domain abstract evaluation of each Compare's decision table (order-type abstraction), value-set analysis, structural sibling rule",
+ text="Reflexivity, antisymmetry, transitivity and result range are decided exhaustively on the finite order-type abstraction of every ecosystem's Compare (abstract interpretation of the SSA: operands touched only through comparisons, constant tables and pure derived values; zip loops summarised through a position-wise total-preorder check; callee comparators proven separately). Laws hold for all inputs whose behaviour the abstraction covers; scanner stages (debian/rpm/alpm strings, alpine numeric arrays) are outside the fragment and the chains above them are conditional. Genuine defects found are fixed in /repo or listed in known_findings.json.",
+ note=TRUST+" Assumes C19 (pure helpers). Not decided: order laws inside the character scanners; spurious abstract worlds are excluded only by construction-site value domains (regexp alternations, normaliser images).",
+ design="DESIGN.md 4.1, 5 (C01), 7"),
+'C15':dict(technique="static analysis: structural matching of the CLI's registry, argument flow, format strings and write paths on SSA",
+ text="Every clause of the CLI property is structural: registry keys vs each package's Name() constant and the Ecosystem type passed; constructor/argument pairing in compare/contains/versContains; success output built only from %d/%t/%q; exactly one \"%s\\n\" write on every path through run; exit codes. Checked on the resolved program for all 20 registrations at once.",
+ note=TRUST+" Equality of CLI output with library results follows from the argument/return flow being direct; the library itself is covered by the other properties.",
+ design="DESIGN.md 5 (C15)"),
 'C06':dict(technique="static analysis: SSA bounds prover (difference constraints + Houdini invariants), access-path nil analysis, loop ranking classes, return-shape rules",
  text="Every panic-capable instruction (index, slice, dereference, unchecked assertion, division, make, MustCompile) in every function reachable from the public operations, vers.Contains and the CLI is an obligation discharged by a prover over SSA or reported with file:line; every loop is placed in a class with a ranking argument; every return of every (*T,error)/(bool,error)/(string,int) function has the required shape. A sound over-approximation in intent (undischarged = alarm); labelled 'other' because the soundness argument is DESIGN.md.",
  note=TRUST+" Not decided: the 'at most quadratic time' clause (R-TERM proves termination, not a cost bound). regexp is RE2 (linear).",
